@@ -33,6 +33,16 @@ def _build(rng, xs, ys, form):
         return c
     if form == "copy":
         return CurveFitting(CurveFitting(list(xs), list(ys)))
+    if form == "copy_reset":
+        # the source of a copy, after the copy was given other data: it must still fit ITS data
+        src = CurveFitting(list(xs), list(ys))
+        cpy = CurveFitting(src)
+        cpy.set([v + 1.0 for v in xs] + [0.5], [3.0 * v - 2.0 for v in ys] + [7.25])
+        try:
+            cpy.linear_fitting()
+        except ZeroDivisionError:
+            pass
+        return src
     raise ValueError(form)
 
 
@@ -88,7 +98,7 @@ def gen_fit(seed, shard, n):
             rng.shuffle(idx)
         xs = [xs[i] for i in idx]
         ys = [ys[i] for i in idx]
-        form = rng.choice(["lists", "tuples", "flat", "set", "copy"])
+        form = rng.choice(["lists", "tuples", "flat", "set", "copy", "copy_reset"])
         if form == "flat" and len(xs) < 2:
             form = "lists"
         try:
@@ -98,7 +108,8 @@ def gen_fit(seed, shard, n):
                    "c": _pad3([]), "r": fx(0), "ysc": fx(1), "form": form, "n": len(xs), "basis": "", "nb": 0,
                    "Bs": [[], [], []], "singular": 0}
             continue
-        base = {"xs": [fx(v) for v in cf._x], "ys": [fx(v) for v in cf._y], "form": form, "n": len(xs),
+        # the data AS GIVEN are the reference (never what the object stored)
+        base = {"xs": [fx(v) for v in xs], "ys": [fx(v) for v in ys], "form": form, "n": len(xs),
                 "ysc": fx(max(1.0, max(abs(v) for v in ys))), "r": fx(0), "basis": "", "nb": 0,
                 "Bs": [[], [], []], "singular": 0, "xf": list(xs), "yf": list(ys),
                 "ndist": len(set(xs)), "xmax": max(abs(v) for v in xs), "ydist": len(set(ys)),
@@ -136,9 +147,9 @@ def gen_fit(seed, shard, n):
         cols = []
         for j in range(3):
             if j < nb:
-                cols.append([fx(fs[j](x)) for x in cf._x])
+                cols.append([fx(fs[j](x)) for x in xs])
             else:
-                cols.append([fx(0) for _ in cf._x])
+                cols.append([fx(0) for _ in xs])
         ev["Bs"] = cols
         try:
             ev["c"], ev["oc"] = _pad3(cf.general_fitting(*fs)), "ok"
